@@ -5,9 +5,10 @@ import copy
 import json
 import time
 
-from .. import docs, e2e, gens
+from .. import docs, e2e, gens, guard, shape
 from ..common import hx, unhx
 from ..runner import Check
+from . import c01_refs
 
 TARGETS = ["3.9", "3.10", "3.11", "3.12", "3.13"]
 BOOL_OPTS = [
@@ -115,7 +116,7 @@ def run_case(ck: Check, camp, case: dict) -> None:
     camp.hit("stream:clean" if clean else "stream:adversarial")
     camp.hit(f"formatters:{'default' if fm else 'off'}")
     camp.hit(f"input:{ift}")
-    res = e2e.run_generate(doc, input_file_type=ift, model=model, opts=opts, formatters=fm, timeout=15, target=target,
+    res = e2e.run_generate(shape.doc_text(doc), input_file_type=ift, model=model, opts=opts, formatters=fm, timeout=15, target=target,
                            modular=bool(opts.get("treat_dot_as_module")) or case.get("modular", False))
     base = {"oracle": "terminates_and_parses", "kind": model, "stream": "clean" if clean else "adversarial"}
     if res.hang:
@@ -133,6 +134,13 @@ def run_case(ck: Check, camp, case: dict) -> None:
                                       modular=bool(opts.get("treat_dot_as_module")) or case.get("modular", False))
                 if r2.ok:
                     trig = "collapse_root_models"
+            if trig == "other" and "empty_segment" in c01_refs.classify(doc):
+                # attribution for the recorded finding: the same document with the empty pointer segments removed does not
+                # end in RecursionError
+                r2 = e2e.run_generate(shape.doc_text(c01_refs.without_empty_segments(doc)), input_file_type=ift, model=model, opts=opts, formatters=fm,
+                                      timeout=15, target=target, modular=bool(opts.get("treat_dot_as_module")) or case.get("modular", False))
+                if r2.error_type != "RecursionError" and not r2.hang:
+                    trig = "ref_pointer_empty_segment"
             ck.fail({**base, "mechanism": "recursion_error", "trigger": trig}, case, f"RecursionError instead of a reported error: {res.error_msg}")
         elif clean and not (fm and res.error_type in ("InvalidInput",)):
             ck.fail({**base, "mechanism": "error_on_supported_input", "error": res.error_type}, case,
@@ -158,6 +166,16 @@ def attribute(case: dict, target, code: str) -> tuple[str, str, str]:
     from jinja2.filters import do_indent
 
     from .c10 import D5_PINNED_PATTERN_TABLE
+    cyc = c01_refs.classify(case["doc"]) & {"self_ref", "pure_ref_cycle"}
+    if cyc:
+        # a schema that is nothing but a reference to itself (directly or through schemas that are only references)
+        r = e2e.run_generate(shape.doc_text(c01_refs.without_self_refs(case["doc"])), input_file_type=case.get("input_file_type", "jsonschema"), model=case["model"],
+                             opts=case["opts"], formatters=case.get("formatters"), timeout=15, target=target,
+                             modular=bool(case["opts"].get("treat_dot_as_module")) or case.get("modular", False))
+        if r.ok and all(e2e.parses(c, target) is None for p, c in r.files.items() if p.endswith(".py")):
+            import re
+
+            return "import", "self_ref" if "self_ref" in cyc else "pure_ref_cycle", "empty_import_module" if re.search(r"^import  as \w+$", code, re.M) else "other"
     for what in ("description", "pattern"):
         d2 = neutralise(case["doc"], what)
         if d2 == case["doc"]:
@@ -287,22 +305,26 @@ def _campaign_templates(ck: Check, quick: bool) -> None:
 
 def run(ck: Check) -> None:
     quick = ck.tier == "quick"
-    from ..translate import esc, template_ast, templates
+    from ..translate import code_sites, esc, loop_sites, template_ast, templates
     from . import tpl_search
 
-    ck.translate("EscTables", esc.generate())
-    ck.translate("Templates", templates.generate())
+    # a translator that throws (the code no longer has the shape it reads) leaves a stale table: broken obligations, not exit 2
+    shape.translate(ck, "EscTables", esc.generate)
+    shape.translate(ck, "Templates", templates.generate)
     # the templates themselves, as a deep-embedded AST from jinja2's own parser: the template theorems
     # (class_body_nonempty, class_body_lines_indented, …) are re-checked by the kernel against what the sources say now
-    ck.translate("TemplateAst", template_ast.generate())
-    from ..translate import code_sites
-
-    ck.translate("CodeSites", code_sites.generate())
+    shape.translate(ck, "TemplateAst", template_ast.generate)
+    shape.translate(ck, "CodeSites", code_sites.generate)
+    # the shape of the parsers' fix-point loops (fixpoint_loops_have_independent_exit, reserved_refs_only_grow)
+    shape.translate(ck, "LoopSites", loop_sites.generate)
     ck.search_hooks.append(tpl_search.search)
     ck.prove()
+    shape.mark_stale(ck)
     ck.assumptions += [
         "no Python grammar is modelled: grammatical validity of the emitted token skeletons is established by ast.parse(feature_version=target) over the campaign, not by a theorem",
-        "the two fix-point loops of the JSON-Schema parser are modelled abstractly (a set that only grows inside the finite set of $ref strings of the document); that the code's sets only grow is by reading",
+        "the fix-point loops of the JSON-Schema / OpenAPI parsers are modelled by their SHAPE (Gen/LoopSites, extracted from the AST): that a pass of the "
+        "reserved-ref loop only adds `$ref` strings of the document (the bound of growing_bounded_stabilises) and that the interpreter enforces its recursion "
+        "limit are by reading; that reserved_refs is only added to is an obligation (reserved_refs_only_grow)",
         "only Python 3.12 is available: other targets are checked with ast.parse(feature_version=…) only",
     ]
     ck.assumptions += [
@@ -313,16 +335,18 @@ def run(ck: Check) -> None:
         "pydantic/Config.jinja2: `class Config:` has a body only under the invariant of model/pydantic/base_model.py that a "
         "Config object has at least one field set (theorem config_class_body_nonempty is conditional on it)",
     ]
-    campaign_repr(ck, 1500 if quick else 20000)
-    campaign_text_slots(ck)
-    campaign_e2e(ck, 150 if quick else 2500, 200 if quick else 3500)
+    # a campaign that throws is a broken correspondence (guard.campaign), never an infrastructure error
+    guard.campaign(ck, campaign_repr, 1500 if quick else 20000)
+    guard.campaign(ck, campaign_text_slots)
+    guard.campaign(ck, campaign_e2e, 150 if quick else 2500, 200 if quick else 3500)
     # after the older campaigns, so that their random streams are what they were before these were added
     from . import c01_extra
 
-    c01_extra.campaign_yaml_text(ck, run_case, 120 if quick else 2500)
-    c01_extra.campaign_field_extras(ck, run_case)
-    _campaign_templates(ck, quick)
-    tpl_search.self_test(ck)
+    guard.campaign(ck, c01_extra.campaign_yaml_text, run_case, 120 if quick else 2500)
+    guard.campaign(ck, c01_extra.campaign_field_extras, run_case)
+    guard.campaign(ck, c01_refs.campaign_pointers, run_case, 140 if quick else 1500, 4 if quick else 30)
+    guard.campaign(ck, _campaign_templates, quick)
+    guard.campaign(ck, tpl_search.self_test)
     known_findings(ck)
 
 
